@@ -391,3 +391,406 @@ Qed.
 Lemma winner_unique : forall now mn l a a', 1 <= mn ->
   majority_of now mn l = Some a -> majority_of now mn l = Some a' -> a = a'.
 Proof. intros. congruence. Qed.
+
+(* ================================================================ C. the vote tables *)
+
+Definition entry (n : N) (l : list vote) : option vote := find (fun v => N.eqb (vnode v) n) l.
+Definition tbl (fam : bool) (iv : ipvote) : list vote := if fam then v6 iv else v4 iv.
+Definition wf (iv : ipvote) : Prop := NoDup (map vnode (v4 iv)) /\ NoDup (map vnode (v6 iv)).
+
+Lemma NoDup_map_filter : forall (l : list vote) p, NoDup (map vnode l) -> NoDup (map vnode (filter p l)).
+Proof.
+  intros l p. induction l as [|v l IH]; cbn [map filter]; intros H; [constructor|].
+  inversion H as [|? ? Hn Hl]; subst. destruct (p v); cbn [map]; [|apply IH; assumption].
+  constructor; [|apply IH; assumption].
+  intros Hin. apply Hn. apply in_map_iff in Hin. destruct Hin as [x [E Hx]]. apply filter_In in Hx.
+  apply in_map_iff. exists x. split; [assumption | apply Hx].
+Qed.
+
+Lemma in_put : forall x v l, In x (put v l) <-> x = v \/ (In x l /\ vnode x <> vnode v).
+Proof.
+  intros x v l. unfold put. rewrite in_app_iff, filter_In. cbn [In]. split.
+  - intros [[H1 H2]|[H|[]]]; [right | left; congruence].
+    split; [assumption|]. apply negb_true_iff, N.eqb_neq in H2. assumption.
+  - intros [H|[H1 H2]]; [right; left; congruence | left].
+    split; [assumption|]. apply negb_true_iff, N.eqb_neq. assumption.
+Qed.
+
+Lemma NoDup_snoc : forall (A : Type) (l : list A) (x : A), NoDup l -> ~ In x l -> NoDup (l ++ [x]).
+Proof.
+  intros A l x Hl Hx. induction Hl as [|y l Hy Hl IH]; cbn [app].
+  - constructor; [intros []|constructor].
+  - constructor.
+    + intros Hin. apply in_app_or in Hin. destruct Hin as [Hin|[Hin|[]]]; [contradiction|].
+      subst y. apply Hx. left. reflexivity.
+    + apply IH. intros Hin. apply Hx. right. assumption.
+Qed.
+
+Lemma put_nodup : forall v l, NoDup (map vnode l) -> NoDup (map vnode (put v l)).
+Proof.
+  intros v l H. unfold put. rewrite map_app. cbn [map]. apply NoDup_snoc.
+  - apply NoDup_map_filter. assumption.
+  - intros Hin. apply in_map_iff in Hin. destruct Hin as [x [E Hx]]. apply filter_In in Hx. destruct Hx as [_ Hx].
+    apply negb_true_iff, N.eqb_neq in Hx. congruence.
+Qed.
+
+Lemma entry_in : forall n l v, entry n l = Some v -> In v l /\ vnode v = n.
+Proof.
+  intros n l v H. unfold entry in H. apply find_some in H. destruct H as [H1 H2]. apply N.eqb_eq in H2. auto.
+Qed.
+
+Lemma entry_unique : forall n l v, NoDup (map vnode l) -> In v l -> vnode v = n -> entry n l = Some v.
+Proof.
+  intros n l v. unfold entry. induction l as [|x l IH]; cbn [map find In]; intros ND Hin Hn; [contradiction|].
+  inversion ND as [|? ? Hx Hl]; subst. destruct Hin as [E|Hin].
+  - subst x. rewrite N.eqb_refl. reflexivity.
+  - destruct (N.eqb (vnode x) (vnode v)) eqn:E.
+    + apply N.eqb_eq in E. exfalso. apply Hx. rewrite E. apply in_map. assumption.
+    + apply IH; auto.
+Qed.
+
+(* one vote per node: the newest vote of a node is its only entry ... *)
+Lemma entry_put_same : forall v l, NoDup (map vnode l) -> entry (vnode v) (put v l) = Some v.
+Proof.
+  intros v l H. apply entry_unique; [apply put_nodup; assumption | apply in_put; left; reflexivity | reflexivity].
+Qed.
+
+(* ... the entries of the other nodes are untouched ... *)
+Lemma entry_put_other : forall v l n, NoDup (map vnode l) -> n <> vnode v -> entry n (put v l) = entry n l.
+Proof.
+  intros v l n ND Hn. destruct (entry n l) as [x|] eqn:E.
+  - apply entry_in in E. destruct E as [E1 E2]. apply entry_unique; [apply put_nodup; assumption | | assumption].
+    apply in_put. right. split; [assumption | congruence].
+  - destruct (entry n (put v l)) as [y|] eqn:E'; [|reflexivity]. exfalso.
+    apply entry_in in E'. destruct E' as [E1 E2]. apply in_put in E1. destruct E1 as [E1|[E1 E3]]; [subst y; congruence|].
+    rewrite (entry_unique n l y ND E1 E2) in E. discriminate.
+Qed.
+
+(* ... and an entry disappears exactly when it has expired *)
+Lemma entry_prune : forall now l n, NoDup (map vnode l) ->
+  entry n (prune now l) = match entry n l with Some v => if fresh now v then Some v else None | None => None end.
+Proof.
+  intros now l n ND. destruct (entry n l) as [x|] eqn:E.
+  - apply entry_in in E. destruct E as [E1 E2]. destruct (fresh now x) eqn:F.
+    + apply entry_unique; [apply NoDup_map_filter; assumption | | assumption]. apply filter_In. auto.
+    + destruct (entry n (prune now l)) as [y|] eqn:E'; [|reflexivity]. exfalso.
+      apply entry_in in E'. destruct E' as [E3 E4]. apply filter_In in E3. destruct E3 as [E3 E5].
+      assert (entry n l = Some y) by (apply entry_unique; assumption).
+      assert (entry n l = Some x) by (apply entry_unique; assumption). congruence.
+  - destruct (entry n (prune now l)) as [y|] eqn:E'; [|reflexivity]. exfalso.
+    apply entry_in in E'. destruct E' as [E3 E4]. apply filter_In in E3. destruct E3 as [E3 E5].
+    rewrite (entry_unique n l y ND E3 E4) in E. discriminate.
+Qed.
+
+Definition new_vote (iv : ipvote) (node : N) (sock : bool * N) (now : N) : vote :=
+  {| vnode := node; vaddr := snd sock; vexp := now + duration iv |}.
+
+Lemma tbl_insert : forall iv node sock now fam,
+  tbl fam (insert iv node sock now) =
+  if Bool.eqb fam (fst sock) then put (new_vote iv node sock now) (tbl fam iv) else tbl fam iv.
+Proof. intros iv node [f a] now fam. unfold insert, tbl, new_vote. cbn [fst snd]. destruct f, fam; reflexivity. Qed.
+
+Lemma wf_insert : forall iv node sock now, wf iv -> wf (insert iv node sock now).
+Proof.
+  intros iv node [f a] now [W4 W6]. unfold insert, wf. cbn [fst snd]. destruct f; cbn [v4 v6]; split; auto; apply put_nodup; assumption.
+Qed.
+
+Lemma majority_fst : forall iv now,
+  fst (majority iv now) = {| v4 := prune now (v4 iv); v6 := prune now (v6 iv); minimum := minimum iv; duration := duration iv |}.
+Proof. reflexivity. Qed.
+
+Lemma majority_snd : forall iv now,
+  snd (majority iv now) = (majority_of now (minimum iv) (v4 iv), majority_of now (minimum iv) (v6 iv)).
+Proof. reflexivity. Qed.
+
+Lemma has_min_fst : forall iv now, fst (has_minimum_threshold iv now) = fst (majority iv now).
+Proof. reflexivity. Qed.
+
+Lemma wf_pruned : forall iv now, wf iv -> wf (fst (majority iv now)).
+Proof. intros iv now [W4 W6]. rewrite majority_fst. split; cbn [v4 v6]; apply NoDup_map_filter; assumption. Qed.
+
+(* one_vote_per_node, for every sequence of facade operations and times *)
+Lemma wf_vstep : forall iv o now, wf iv -> wf (fst (vstep iv o now)).
+Proof.
+  intros iv o now W. destruct o as [n sock| | ]; cbn [vstep].
+  - cbn [fst]. apply wf_insert. assumption.
+  - change (wf (fst (let (s', r) := majority iv now in (s', VMaj r)))).
+    destruct (majority iv now) as [s' r] eqn:E. cbn [fst]. change s' with (fst (s', r)). rewrite <- E. apply wf_pruned. assumption.
+  - change (wf (fst (let (s', r) := has_minimum_threshold iv now in (s', VMin r)))).
+    destruct (has_minimum_threshold iv now) as [s' r] eqn:E. cbn [fst]. change s' with (fst (s', r)). rewrite <- E, has_min_fst.
+    apply wf_pruned. assumption.
+Qed.
+
+Lemma one_vote_per_node : forall (ops : list (vop * N)) iv, wf iv ->
+  wf (fold_left (fun s x => fst (vstep s (fst x) (snd x))) ops iv).
+Proof.
+  induction ops as [|[o now] ops IH]; intros iv W; cbn [fold_left fst snd]; [assumption|].
+  apply IH. apply wf_vstep. assumption.
+Qed.
+
+Lemma wf_new : forall mn dur iv, new_ipvote mn dur = Some iv -> wf iv /\ minimum iv = mn /\ 2 <= mn /\ duration iv = dur.
+Proof.
+  intros mn dur iv H. unfold new_ipvote in H. destruct (mn <? 2) eqn:C; [discriminate|]. apply N.ltb_ge in C.
+  inversion H; subst. cbn. repeat split; try constructor; assumption.
+Qed.
+
+(* ================================================================ D. the service's PONG handling *)
+
+Definition udp (fam : bool) (e : local_enr) : option N := if fam then udp6 e else udp4 e.
+
+Lemma opt_eqb_false : forall a o, opt_eqb (Some a) o = false -> o <> Some a.
+Proof. intros a [b|] H E; cbn in H; [inversion E; subst; rewrite N.eqb_refl in H|]; discriminate. Qed.
+
+Lemma require_more_votes : forall dual iv is6 now,
+  fst (require_more_ip_votes dual iv is6 now) = iv \/
+  fst (require_more_ip_votes dual iv is6 now) = fst (majority iv now).
+Proof.
+  intros dual iv is6 now. unfold require_more_ip_votes. destruct dual; cbn [negb]; [right | left; reflexivity].
+  destruct (has_minimum_threshold iv now) as [iv' hm] eqn:E. cbn [fst].
+  change iv' with (fst (iv', hm)). rewrite <- E. apply has_min_fst.
+Qed.
+
+(* Either nothing visible happens, or the reported family's address is replaced by the current
+   clear-majority winner of the table that contains the new vote; then the sequence number is
+   bumped and the event emitted.  [t] is the table the decision was taken on. *)
+Lemma handle_pong_cases : forall s p nq ni,
+  let s' := handle_pong s p nq ni in
+  let fam := fst (p_sock p) in
+  dual_stack s' = dual_stack s /\
+  ((enr s' = enr s /\ events s' = events s) \/
+   (exists iv iv1 a,
+      ip_votes s = Some iv /\ p_count_ok p = true /\ (iv1 = iv \/ iv1 = fst (majority iv nq)) /\
+      majority_of nq (minimum iv) (tbl fam (insert iv1 (p_node p) (p_sock p) ni)) = Some a /\
+      udp fam (enr s) <> Some a /\
+      set_udp_socket (enr s) (fam, a) (p_enr_ok p) = Some (enr s') /\
+      events s' = events s ++ [(fam, a)])) /\
+  (match ip_votes s with
+   | None => ip_votes s' = None
+   | Some iv => ip_votes s' = Some iv \/
+                (exists iv1, (iv1 = iv \/ iv1 = fst (majority iv nq)) /\
+                   (ip_votes s' = Some iv1 \/
+                    ip_votes s' = Some (fst (majority (insert iv1 (p_node p) (p_sock p) ni) nq))))
+   end).
+Proof.
+  intros s p nq ni. cbv zeta. unfold handle_pong.
+  destruct (p_count_ok p) eqn:CO; cbn [negb].
+  2:{ split; [reflexivity|]. split; [left; split; reflexivity|]. destruct (ip_votes s); [left|]; reflexivity. }
+  destruct (ip_votes s) as [iv|] eqn:IV.
+  2:{ split; [reflexivity|]. split; [left; split; reflexivity|]. rewrite IV. reflexivity. }
+  pose proof (require_more_votes (dual_stack s) iv (fst (p_sock p)) nq) as RM.
+  destruct (require_more_ip_votes (dual_stack s) iv (fst (p_sock p)) nq) as [iv1 more] eqn:E1. cbn [fst] in RM.
+  destruct (negb (p_conn_out p || more)).
+  { cbn [dual_stack enr events ip_votes]. split; [reflexivity|]. split; [left; split; reflexivity|].
+    right. exists iv1. split; [assumption | left; reflexivity]. }
+  set (iv2 := insert iv1 (p_node p) (p_sock p) ni).
+  pose proof (majority_fst iv2 nq) as MF. pose proof (majority_snd iv2 nq) as MS.
+  destruct (majority iv2 nq) as [iv3 m] eqn:E3. cbn [fst snd] in MF, MS.
+  assert (Votes : forall e ev, ip_votes {| ip_votes := Some iv3; dual_stack := dual_stack s; enr := e; events := ev |} = Some iv \/
+            (exists iv1', (iv1' = iv \/ iv1' = fst (majority iv nq)) /\
+               (Some iv3 = Some iv1' \/ Some iv3 = Some (fst (majority (insert iv1' (p_node p) (p_sock p) ni) nq))))).
+  { intros. right. exists iv1. split; [assumption|]. right. fold iv2. rewrite E3. reflexivity. }
+  assert (Mn : minimum iv2 = minimum iv).
+  { unfold iv2, insert. destruct (fst (p_sock p)); cbn [minimum]; destruct RM as [R|R]; rewrite R; reflexivity. }
+  assert (MO : (if fst (p_sock p) then snd m else fst m) =
+               majority_of nq (minimum iv) (tbl (fst (p_sock p)) iv2)).
+  { rewrite MS, <- Mn. unfold tbl. destruct (fst (p_sock p)); reflexivity. }
+  rewrite MO.
+  destruct (majority_of nq (minimum iv) (tbl (fst (p_sock p)) iv2)) as [a|] eqn:W.
+  2:{ cbn [dual_stack enr events ip_votes]. split; [reflexivity|]. split; [left; split; reflexivity|]. apply (Votes (enr s) (events s)). }
+  destruct (opt_eqb (Some a) (if fst (p_sock p) then udp6 (enr s) else udp4 (enr s))) eqn:EQ.
+  { cbn [dual_stack enr events ip_votes]. split; [reflexivity|]. split; [left; split; reflexivity|]. apply (Votes (enr s) (events s)). }
+  destruct (set_udp_socket (enr s) (fst (p_sock p), a) (p_enr_ok p)) as [e'|] eqn:SU.
+  2:{ cbn [dual_stack enr events ip_votes]. split; [reflexivity|]. split; [left; split; reflexivity|]. apply (Votes (enr s) (events s)). }
+  cbn [dual_stack enr events ip_votes]. split; [reflexivity|]. split; [|apply (Votes e' (events s ++ [(fst (p_sock p), a)]))].
+  right. exists iv, iv1, a. repeat split; try assumption; try reflexivity.
+  apply opt_eqb_false in EQ. unfold udp. assumption.
+Qed.
+
+Lemma set_udp_socket_spec : forall e fam a ok e', set_udp_socket e (fam, a) ok = Some e' ->
+  seq e' = seq e + 1 /\ seq e + 1 < 2 ^ 64 /\ ok = true /\
+  udp fam e' = Some a /\ udp (negb fam) e' = udp (negb fam) e.
+Proof.
+  intros e fam a ok e' H. unfold set_udp_socket in H. cbn [fst snd] in H.
+  destruct ok; cbn [andb] in H; [|discriminate]. destruct (seq e + 1 <? 2 ^ 64) eqn:C; [|discriminate].
+  apply N.ltb_lt in C. inversion H; subst. destruct fam; cbn; repeat split; auto.
+Qed.
+
+(* update_bumps_seq_and_emits + "only to the clear-majority winner", one PONG *)
+Lemma handle_pong_change : forall s p nq ni fam,
+  let s' := handle_pong s p nq ni in
+  udp fam (enr s') <> udp fam (enr s) ->
+  exists iv iv1 a,
+    ip_votes s = Some iv /\ p_count_ok p = true /\ fst (p_sock p) = fam /\
+    (iv1 = iv \/ iv1 = fst (majority iv nq)) /\
+    majority_of nq (minimum iv) (put (new_vote iv (p_node p) (p_sock p) ni) (tbl fam iv1)) = Some a /\
+    udp fam (enr s') = Some a /\
+    udp (negb fam) (enr s') = udp (negb fam) (enr s) /\
+    seq (enr s') = seq (enr s) + 1 /\
+    events s' = events s ++ [(fam, a)].
+Proof.
+  intros s p nq ni fam s' Hne. destruct (handle_pong_cases s p nq ni) as (_ & [[E1 E2]|H] & _).
+  - exfalso. apply Hne. unfold s'. rewrite E1. reflexivity.
+  - destruct H as (iv & iv1 & a & IV & CO & RM & W & NE & SU & EV).
+    apply set_udp_socket_spec in SU. destruct SU as (S1 & S2 & S3 & S4 & S5).
+    assert (F : fst (p_sock p) = fam).
+    { destruct (Bool.bool_dec (fst (p_sock p)) fam) as [E|E]; [assumption|]. exfalso. apply Hne.
+      assert (fam = negb (fst (p_sock p))).
+      { revert E. generalize (fst (p_sock p)). intros g E. destruct fam, g; try reflexivity; exfalso; apply E; reflexivity. }
+      subst fam. exact S5. }
+    exists iv, iv1, a. rewrite F in *. repeat split; try assumption.
+    rewrite tbl_insert in W. rewrite F in W. rewrite Bool.eqb_reflx in W.
+    replace (new_vote iv (p_node p) (p_sock p) ni) with (new_vote iv1 (p_node p) (p_sock p) ni); [exact W|].
+    unfold new_vote. destruct RM as [R|R]; rewrite R; reflexivity.
+Qed.
+
+(* no change of either address: the sequence number and the event stream are untouched *)
+Lemma handle_pong_quiet : forall s p nq ni,
+  let s' := handle_pong s p nq ni in
+  udp4 (enr s') = udp4 (enr s) -> udp6 (enr s') = udp6 (enr s) ->
+  enr s' = enr s /\ events s' = events s.
+Proof.
+  intros s p nq ni s' H4 H6. destruct (handle_pong_cases s p nq ni) as (_ & [[E1 E2]|H] & _); [split; assumption|].
+  exfalso. destruct H as (iv & iv1 & a & IV & CO & RM & W & NE & SU & EV).
+  apply set_udp_socket_spec in SU. destruct SU as (S1 & S2 & S3 & S4 & S5).
+  apply NE. rewrite <- S4. unfold udp. fold s'. destruct (fst (p_sock p)); congruence.
+Qed.
+
+(* ================================================================ E. fewer liars than the minimum *)
+
+Lemma option_eq_dec_N : forall a b : option N, {a = b} + {a <> b}.
+Proof. decide equality. apply N.eq_dec. Qed.
+
+
+Definition sock_eqb (a b : bool * N) : bool := Bool.eqb (fst a) (fst b) && N.eqb (snd a) (snd b).
+Definition pong_of (x : pong * N * N) : pong := fst (fst x).
+
+(* the distinct peers that ever report socket [sa] in the PONGs [ps] *)
+Definition voters_for (sa : bool * N) (ps : list pong) : list N :=
+  nodup N.eq_dec (map p_node (filter (fun p => sock_eqb (p_sock p) sa) ps)).
+
+Lemma sock_eqb_eq : forall a b, sock_eqb a b = true <-> a = b.
+Proof.
+  intros [f x] [g y]. unfold sock_eqb. cbn [fst snd]. rewrite andb_true_iff, Bool.eqb_true_iff, N.eqb_eq.
+  split; [intros [A B]; subst; reflexivity | intros E; inversion E; auto].
+Qed.
+
+Lemma in_voters_for : forall sa ps n, In n (voters_for sa ps) <-> exists p, In p ps /\ p_sock p = sa /\ p_node p = n.
+Proof.
+  intros sa ps n. unfold voters_for. rewrite nodup_In, in_map_iff. split.
+  - intros [p [E H]]. apply filter_In in H. destruct H as [H1 H2]. apply sock_eqb_eq in H2. exists p. auto.
+  - intros [p [H1 [H2 H3]]]. exists p. split; [assumption|]. apply filter_In. split; [assumption | apply sock_eqb_eq; assumption].
+Qed.
+
+Definition origin (hist : list pong) (fam : bool) (v : vote) : Prop :=
+  exists p, In p hist /\ p_node p = vnode v /\ p_sock p = (fam, vaddr v).
+
+Definition svc_inv (mn : N) (hist : list pong) (s : service) : Prop :=
+  exists iv, ip_votes s = Some iv /\ minimum iv = mn /\ wf iv /\
+             forall fam v, In v (tbl fam iv) -> origin hist fam v.
+
+Lemma origin_mono : forall hist p fam v, origin hist fam v -> origin (hist ++ [p]) fam v.
+Proof. intros hist p fam v [q [A B]]. exists q. split; [apply in_or_app; left; assumption | assumption]. Qed.
+
+Lemma tbl_pruned : forall iv now fam, tbl fam (fst (majority iv now)) = prune now (tbl fam iv).
+Proof. intros. rewrite majority_fst. destruct fam; reflexivity. Qed.
+
+Lemma min_pruned : forall iv now, minimum (fst (majority iv now)) = minimum iv.
+Proof. reflexivity. Qed.
+
+Lemma min_insert : forall iv n sock now, minimum (insert iv n sock now) = minimum iv.
+Proof. intros. unfold insert. destruct (fst sock); reflexivity. Qed.
+
+Lemma svc_inv_step : forall mn hist s p nq ni,
+  svc_inv mn hist s -> svc_inv mn (hist ++ [p]) (handle_pong s p nq ni).
+Proof.
+  intros mn hist s p nq ni (iv & IV & MN & WF & OR).
+  destruct (handle_pong_cases s p nq ni) as (_ & _ & H). rewrite IV in H.
+  assert (Base : forall iv1, iv1 = iv \/ iv1 = fst (majority iv nq) ->
+            minimum iv1 = mn /\ wf iv1 /\ forall fam v, In v (tbl fam iv1) -> origin (hist ++ [p]) fam v).
+  { intros iv1 [E|E]; subst iv1.
+    - repeat split; try assumption; try apply WF. intros. apply origin_mono. apply OR. assumption.
+    - split; [rewrite min_pruned; assumption|]. split; [apply wf_pruned; assumption|].
+      intros fam v Hin. rewrite tbl_pruned in Hin. apply filter_In in Hin. apply origin_mono. apply OR. apply Hin. }
+  destruct H as [H|(iv1 & RM & [H|H])].
+  - exists iv. destruct (Base iv (or_introl eq_refl)) as (A & B & C). auto.
+  - exists iv1. destruct (Base iv1 RM) as (A & B & C). auto.
+  - destruct (Base iv1 RM) as (A & B & C).
+    exists (fst (majority (insert iv1 (p_node p) (p_sock p) ni) nq)). split; [assumption|].
+    split; [rewrite min_pruned, min_insert; assumption|].
+    split; [apply wf_pruned, wf_insert; assumption|].
+    intros fam v Hin. rewrite tbl_pruned in Hin. apply filter_In in Hin. destruct Hin as [Hin _].
+    rewrite tbl_insert in Hin. destruct (Bool.eqb fam (fst (p_sock p))) eqn:E.
+    + apply in_put in Hin. destruct Hin as [Hin|[Hin _]]; [|apply C; assumption].
+      subst v. exists p. split; [apply in_or_app; right; left; reflexivity|]. cbn [new_vote vnode vaddr].
+      split; [reflexivity|]. apply Bool.eqb_prop in E. subst fam. destruct (p_sock p); reflexivity.
+    + apply C. assumption.
+Qed.
+
+Definition run_from (s : service) (ps : list (pong * N * N)) : service := run_pongs s ps.
+
+Lemma run_pongs_snoc : forall s ps x,
+  run_pongs s (ps ++ [x]) = handle_pong (run_pongs s ps) (pong_of x) (snd (fst x)) (snd x).
+Proof. intros s ps [[p q] i]. unfold run_pongs. rewrite fold_left_app. reflexivity. Qed.
+
+Lemma svc_inv_run : forall mn s ps, svc_inv mn [] s -> svc_inv mn (map pong_of ps) (run_pongs s ps).
+Proof.
+  intros mn s ps I. induction ps as [|x ps IH] using rev_ind; [exact I|].
+  rewrite run_pongs_snoc, map_app. cbn [map]. apply svc_inv_step. assumption.
+Qed.
+
+Lemma cnt_le_voters : forall now a t V, NoDup (map vnode t) ->
+  (forall v, In v t -> vaddr v = a -> In (vnode v) V) -> cnt now a t <= N.of_nat (length V).
+Proof.
+  intros now a t V ND H. unfold cnt.
+  set (f := filter (fun v => fresh now v && N.eqb (vaddr v) a) t).
+  assert (L : (length (map vnode f) <= length V)%nat).
+  { apply NoDup_incl_length; [apply NoDup_map_filter; assumption|].
+    intros n Hn. apply in_map_iff in Hn. destruct Hn as [v [E Hv]]. subst n. apply filter_In in Hv. destruct Hv as [Hv C].
+    apply andb_true_iff in C. destruct C as [_ C]. apply N.eqb_eq in C. apply H; assumption. }
+  rewrite map_length in L. lia.
+Qed.
+
+Definition initial_service (mn dur : N) (dual : bool) (e : local_enr) : service :=
+  {| ip_votes := Some {| v4 := []; v6 := []; minimum := mn; duration := dur |};
+     dual_stack := dual; enr := e; events := [] |}.
+
+(* fewer_than_min_cannot_move *)
+Lemma fewer_than_min_cannot_move : forall mn dur dual e0 (ps : list (pong * N * N)) fam a,
+  N.of_nat (length (voters_for (fam, a) (map pong_of ps))) < mn ->
+  forall pre x post, ps = pre ++ x :: post ->
+  let s1 := run_pongs (initial_service mn dur dual e0) pre in
+  let s2 := handle_pong s1 (pong_of x) (snd (fst x)) (snd x) in
+  udp fam (enr s2) = Some a -> udp fam (enr s1) = Some a.
+Proof.
+  intros mn dur dual e0 ps fam a Hlt pre x post Hps s1 s2 H2.
+  destruct (option_eq_dec_N (udp fam (enr s2)) (udp fam (enr s1))) as [E|NE]; [congruence|]. exfalso.
+  destruct (handle_pong_change s1 (pong_of x) (snd (fst x)) (snd x) fam NE)
+    as (iv & iv1 & a' & IV & CO & F & RM & W & U & _).
+  fold s2 in U. assert (a' = a) by congruence. subst a'.
+  assert (I : svc_inv mn (map pong_of pre) s1).
+  { apply svc_inv_run. exists {| v4 := []; v6 := []; minimum := mn; duration := dur |}.
+    repeat split; try constructor. intros f v Hin. destruct f; cbn in Hin; contradiction. }
+  destruct I as (iv' & IV' & MN & WF & OR). rewrite IV in IV'. inversion IV'; subst iv'. clear IV'.
+  assert (Hmn : 1 <= mn) by lia.
+  rewrite MN in W. apply (winner_spec _ _ _ _ Hmn) in W. destruct W as [W _].
+  set (p := pong_of x) in *. set (t := put (new_vote iv (p_node p) (p_sock p) (snd x)) (tbl fam iv1)) in *.
+  assert (B1 : wf iv1 /\ forall v, In v (tbl fam iv1) -> origin (map pong_of pre) fam v).
+  { destruct RM as [R|R]; subst iv1.
+    - split; [assumption | intros; apply OR; assumption].
+    - split; [apply wf_pruned; assumption|]. intros v Hin. rewrite tbl_pruned in Hin. apply filter_In in Hin. apply OR. apply Hin. }
+  destruct B1 as [WF1 OR1].
+  assert (ND : NoDup (map vnode t)).
+  { apply put_nodup. destruct WF1. destruct fam; assumption. }
+  assert (Inc : forall v, In v t -> vaddr v = a -> In (vnode v) (voters_for (fam, a) (map pong_of (pre ++ [x])))).
+  { intros v Hin Ha. apply in_voters_for. rewrite map_app. apply in_put in Hin. destruct Hin as [Hin|[Hin _]].
+    - exists p. split; [apply in_or_app; right; left; reflexivity|]. subst v. cbn [new_vote vaddr vnode] in *.
+      split; [|reflexivity]. rewrite <- F, <- Ha. destruct (p_sock p); reflexivity.
+    - destruct (OR1 v Hin) as [q [Q1 [Q2 Q3]]]. exists q. split; [apply in_or_app; left; assumption|].
+      split; [rewrite Q3, Ha; reflexivity | assumption]. }
+  pose proof (cnt_le_voters (snd (fst x)) a t _ ND Inc) as Le.
+  assert (Mono : (length (voters_for (fam, a) (map pong_of (pre ++ [x]))) <= length (voters_for (fam, a) (map pong_of ps)))%nat).
+  { apply NoDup_incl_length; [apply NoDup_nodup|]. intros n Hn. apply in_voters_for in Hn. apply in_voters_for.
+    destruct Hn as [q [Q1 Q2]]. exists q. split; [|assumption]. subst ps. rewrite map_app in *. cbn [map] in *.
+    apply in_app_or in Q1. apply in_or_app. destruct Q1 as [Q1|[Q1|[]]]; [left; assumption | right; left; assumption]. }
+  lia.
+Qed.
